@@ -155,6 +155,7 @@ def apply(P, known):
             if hasattr(b, 'enclosing'):
                 nb.enclosing = b.enclosing
             nb.inlined_ids = inl
+            nb.program = P
             P.bodies[b.id] = nb
             P.by_short[b.short] = [nb if x.id == b.id else x for x in P.by_short[b.short]]
             changed = True
